@@ -145,6 +145,7 @@ Section Refine.
   Proof.
     intro H. unfold has_required.
     destruct a; try exact H.
+    - now rewrite H, orb_true_r.
     - destruct sp; try exact H. destruct o; try exact H. destruct args; try exact H. now rewrite H, orb_true_r.
     - destruct sp; try exact H. now rewrite H, orb_true_r.
   Qed.
@@ -366,7 +367,7 @@ Section Refine.
     induction a as [ | c | | sp args IHargs | vals | s IHs | n | n | sp o args IHargs | sp e IHe | sp | o | ps r IHps IHr | t | k]
       using ann_ind'; intros Hs v tv; try discriminate Hs.
     - (* ACls *)
-      cbn [is_inst]. unfold has_required, has_required_tables. cbn [ann_name negb]. cbn [supported_in] in Hs. unfold plain_cls_ok in Hs.
+      cbn [is_inst]. unfold has_required, has_required_tables. cbn [ann_name]. rewrite orb_true_r. cbn [negb]. cbn [supported_in] in Hs. unfold plain_cls_ok in Hs.
       apply andb_true_iff in Hs as [Hb _]. apply negb_true_iff in Hb.
       unfold inst_cls. rewrite (in_bare_false c Hb). reflexivity.
     - (* AAny *)
